@@ -16,7 +16,7 @@ func propC01(ch core.Chooser, st *core.Stats) error {
 		return err
 	}
 	defer h.close()
-	err = h.phases(core.Scale(8, 14), core.Scale(500, 2000), []int{6, 3, 6, 2, 1, 0})
+	err = h.phases(core.Scale(8, 14), core.Scale(500, 2000), []int{6, 3, 6, 2, 1, 0, 3})
 	if err != nil {
 		return err
 	}
@@ -42,7 +42,7 @@ func propC02(ch core.Chooser, st *core.Stats) error {
 	}
 	defer h.close()
 	h.switchFS = true
-	err = h.phases(core.Scale(10, 16), core.Scale(400, 1500), []int{5, 2, 5, 2, 4, 2})
+	err = h.phases(core.Scale(10, 16), core.Scale(400, 1500), []int{5, 2, 5, 2, 4, 2, 2})
 	if err != nil {
 		return err
 	}
